@@ -35,6 +35,20 @@ pub fn write_dictionary_values(
     Ok(serde_json::Value::Object(jobjs))
 }
 
+// JSON has no infinities or NaN (json! would write them as null, which cannot be loaded back):
+// clamp them as the reference writer does
+fn float_for_json(v: f32) -> f32 {
+    if v.is_nan() {
+        0.0
+    } else if v == f32::INFINITY {
+        3.4e38
+    } else if v == f32::NEG_INFINITY {
+        -3.4e38
+    } else {
+        v
+    }
+}
+
 pub fn write_rtobject(o: Rc<dyn RTObject>) -> Result<serde_json::Value, StoryError> {
     if let Some(c) = o.as_any().downcast_ref::<Container>() {
         return write_rt_container(c, false);
@@ -97,7 +111,7 @@ pub fn write_rtobject(o: Rc<dyn RTObject>) -> Result<serde_json::Value, StoryErr
     }
 
     if let Some(v) = Value::get_value::<f32>(o.as_ref()) {
-        return Ok(json!(v));
+        return Ok(json!(float_for_json(v)));
     }
 
     if let Some(v) = Value::get_value::<&StringValue>(o.as_ref()) {
